@@ -307,6 +307,31 @@ def run_shape(case, shape, tier, seed):
             so = sym_outcome(case.spec, shape, args)
             return io, so
 
+        def scout(chunk):
+            """bug finding before proving: evaluate every path's goal under a model of its path condition and move the paths
+            refuted that way to the front (they are then confirmed concretely by the main loop); nothing is discharged here"""
+            front, back = [], []
+            for p in chunk:
+                hit = False
+                try:
+                    io, so = p.value
+                    goal = agree_node(io, so)
+                    if goal is not None and p.pc and not ir.isc(goal):
+                        s = z3.Solver()
+                        s.set('timeout', min(case.solver_timeout_ms, 10000))
+                        for c in p.pc:
+                            s.add(ir.lower_bool(c))
+                        rr, env = checked(s, min(case.solver_timeout_ms, 10000), src.vars, len(ir.reachable(list(p.pc))))
+                        res['queries'] += 1
+                        if rr == 'sat' and ir.eval1(goal, env, case.uf_concrete) == 0:
+                            hit = True
+                    elif goal is not None and ir.isc(goal) and goal.a == 0:
+                        hit = True
+                except (KeyError, z3.Z3Exception):
+                    pass
+                (front if hit else back).append(p)
+            return front + back
+
         def lazy_paths():
             """paths are explored in growing chunks (stubs active, case in symbolic mode) and handed out one by one (stubs off,
             concrete mode) so that a shape stops at its first reproduced counterexample instead of enumerating every path"""
@@ -329,6 +354,8 @@ def run_shape(case, shape, tier, seed):
                     if not chunk:
                         return
                     res['paths'] += len(chunk)
+                    if len(chunk) > 1:
+                        chunk = scout(chunk)
                     for p in chunk:
                         yield p
                     n *= 4
